@@ -13,8 +13,7 @@
  * again from inside the callback.
  * Events: ev0, ev1 on signal A, ev2 on signal B (EV_SIGNAL|EV_PERSIST).
  */
-#include "event2/event-config.h"
-#include "evconfig-private.h"
+#include "event_struct_nounion.h"   /* see that header: unions in struct event compiled as structs */
 #include "vp.h"
 #include "log_stub.h"
 #ifndef VP_LOCKS_ON
@@ -47,6 +46,7 @@
 #define B VP_SIGB
 #define NEV 3
 static const int sig_of[NEV] = { A, A, B };
+static const int idx_of[NEV] = { 0, 1, 2 };
 static struct event_base *base;
 static struct event sev[NEV];
 static int added[NEV];
@@ -107,7 +107,7 @@ static void raise_sig(int sig)
 
 static void cb(evutil_socket_t fd, short what, void *arg)
 {
-	int i = (int)(long)arg;
+	int i = *(const int *)arg;   /* (a small integer cast to void* would make event_assign's `arg == event_self_cbarg()` test symbolic) */
 	if (what != EV_SIGNAL) bad_what++;
 	VP_ASSERT(what == EV_SIGNAL, "C07: signal callback result flags are exactly EV_SIGNAL");
 	VP_ASSERT(fd == sig_of[i], "C07: signal callback gets its signal number");
@@ -226,7 +226,7 @@ void harness_signals(void)
 	min_heap_reserve_(&base->timeheap, 4);
 	vp_dispatch_hook = kernel_reports;
 	for (i = 0; i < NEV; i++) {
-		event_assign(&sev[i], base, sig_of[i], EV_SIGNAL | EV_PERSIST, cb, (void *)(long)i);
+		event_assign(&sev[i], base, sig_of[i], EV_SIGNAL | EV_PERSIST, cb, (void *)&idx_of[i]);
 #ifdef VP_SELFDEL
 		selfdel[i] = ((VP_SELFDEL) >> i) & 1;
 #endif
